@@ -198,6 +198,17 @@ def run_spokes(case):
     area = tbw / (sl / 10) / 4257
     subgz, nramp = T.min_trap_grad(area, gmax, dgdt, dt)
     nsub = int(np.size(subgz))
+    if case.get("ktype") != "int":
+        kin = k.copy()                   # the caller's own float64 array of locations
+    kin0 = kin.copy()
+    if sum(map(ord, sig)) % 3 == 0:
+        # history: a design with other limits that is rejected half-way (a non-finite location
+        # after the same first locations) precedes the valid one
+        kbad = np.concatenate([np.asarray(kin, float), [[np.inf, 0.0]]], axis=0)
+        try:
+            T.spokes_grad(kbad, tbw, sl, gmax * 4, dgdt * 10, dt / 2)
+        except Exception:
+            pass
     del _BLIPS[:]
     try:
         g = T.spokes_grad(kin, tbw, sl, gmax, dgdt, dt)
@@ -206,6 +217,10 @@ def run_spokes(case):
         wit["subpulse_samples"] = nsub
         return violated(sig, "spokes_grad raised %s: %s" % (type(e).__name__, str(e)[:150]),
                         wit, mech="spokes-raised")
+    if not np.array_equal(kin, kin0):
+        return violated(sig, "spokes_grad modified the caller's array of spoke locations (a "
+                        "second design from the same array would move k-space by other "
+                        "increments)", wit, mech="spokes-mutates-k")
     blips = list(_BLIPS)
     wit["blip_samples"] = [b[1] for b in blips[:-1]]        # last call is the gz refocuser
     wit["subpulse_samples"] = nsub
